@@ -33,8 +33,9 @@
                               written into the grammar; every string of it is a string of the RFC grammar, C03_builtin_is_rfc): every string it
                               derives compiles wherever those five functions are registered with those signatures and the range contains its integers
                               (Proofs/AbnfSpellG.v);
-   What remains a reading rather than a theorem: that bf_grammar is exactly "ABNF + well-typed with the built-in functions" (it is written from the RFC's
-   typing rules; the other inclusion - everything that compiles is in it - is not proved; C04_sound gives membership in the RFC grammar).  The check renders every generated valid query in every
+     C03_C04_builtin_exact  - and conversely (Proofs/TextSoundB.v): with the registry setup_function_extensions builds, compile() accepts EXACTLY the strings
+                              of bf_grammar whose integers are in range - so what is left to read against the RFC is that one grammar
+                              (Spec/BuiltinGrammar.v: the ABNF with the typing rules of 2.4.3 written into comparable, test-expr and the calls).  The check renders every generated valid query in every
    lexical form and requires it to compile to the generating structure. *)
 From JP Require Import Base.Json Spec.Abnf Spec.Rfc9535Grammar Model.PyFloat.
 
@@ -208,7 +209,7 @@ Proof. intros s. apply (accepts_sound nf_grammar (40 * length s + 200)). vm_comp
    bf_grammar: comparable = literal / singular-query / VALUE-CALL, test-expr = [!] (filter-query / LOGICAL-CALL),
    VALUE-CALL = length "(" S VALUE-ARG S ")" / count "(" S filter-query S ")" / value "(" S filter-query S ")",  VALUE-ARG = literal / singular-query / VALUE-CALL,
    LOGICAL-CALL = (match / search) "(" S VALUE-ARG S "," S VALUE-ARG S ")"; every other rule as in the RFC. *)
-From JP Require Import Proofs.AbnfSpellG.
+From JP Require Import Spec.BuiltinGrammar Proofs.AbnfSpellG.
 Theorem C03_complete_abnf_builtin : forall s, derives bf_grammar (R r_jsonpath_query) s ->
   exists B, forall cfg, min_idx cfg <= - B -> B <= max_idx cfg -> std cfg -> exists q, m_compile cfg s = Ok q.
 Proof. intros s H. destruct (abnf_builtin_compiles s H) as (B & K). exists B. intros cfg H1 H2 H3. apply K; [split; assumption | exact H3]. Qed.
@@ -221,3 +222,14 @@ Print Assumptions C03_builtin_is_rfc.
 Example C03_abnf_builtin_nonvacuous :
   let s := [36;91;63;108;101;110;103;116;104;40;64;46;97;41;32;62;61;32;50;32;38;38;32;109;97;116;99;104;40;32;64;46;98;32;44;32;39;120;46;42;39;32;41;32;124;124;32;99;111;117;110;116;40;64;46;46;42;41;32;61;61;32;118;97;108;117;101;40;64;46;99;91;63;64;32;62;32;49;93;41;32;124;124;32;33;115;101;97;114;99;104;40;64;91;39;100;39;93;44;32;34;121;34;41;93;91;32;63;108;101;110;103;116;104;40;32;108;101;110;103;116;104;40;64;41;32;41;32;61;61;49;93]%N in derives bf_grammar (R r_jsonpath_query) s.
 Proof. intros s. apply (accepts_sound bf_grammar (40 * length s + 200)). vm_compute. reflexivity. Qed.
+
+(* ... and nothing else compiles: with the registry JSONPathEnvironment.setup_function_extensions builds (Model/Ast.v builtin_registry, tied to
+   environment.py by the regenerated Gen/Env.v), compile() accepts exactly the strings of bf_grammar whose integers are in range.  The converse
+   inclusion is Proofs/TextSoundB.v: Proofs/TextSound.v (C04_sound) run again with the typed grammar, the typing premises of the token grammar
+   picking the typed alternative of every call. *)
+From JP Require Import Model.Ast Proofs.StringProofs Proofs.TextSoundB.
+Theorem C03_C04_builtin_exact : forall cfg s, reg cfg = builtin_registry -> forallb is_scalar s = true ->
+  ((exists q, m_compile cfg s = Ok q) -> derives bf_grammar (R r_jsonpath_query) s) /\
+  (derives bf_grammar (R r_jsonpath_query) s -> exists B, min_idx cfg <= - B -> B <= max_idx cfg -> exists q, m_compile cfg s = Ok q).
+Proof. exact builtin_exact. Qed.
+Print Assumptions C03_C04_builtin_exact.
